@@ -67,6 +67,7 @@ func TestVerifC01(t *testing.T) {
 		base--
 	}
 	n := verifrep.Cases(100)
+	wallBase := time.Now().Add(-3 * time.Minute).UnixNano()
 	digests := map[string]string{}
 	var seeds []histParams
 	if hp, ok := loadReplay(); ok {
@@ -99,10 +100,28 @@ func TestVerifC01(t *testing.T) {
 		}
 		h := sha256.New()
 		diverged := false
+		// the same history shifted to the present: an instance whose entries carry timestamps
+		// around the wall clock must behave like one whose entries are years old (nothing may
+		// compare entry time with the node's own clock)
+		shiftP := hp.Params
+		shiftP.Base = wallBase
+		shiftHist := verifgen.New(hp.Seed, shiftP).History()
+		shifted := verifNewServer()
+		if len(shiftHist) != len(hist) {
+			rep.Broken(fmt.Sprintf("the time-shifted history of seed %d has %d entries instead of %d", hp.Seed, len(shiftHist), len(hist)))
+			return
+		}
 		for idx := range hist {
 			e := &hist[idx]
 			if verifScope(srvs[0].VerifView(), e) {
 				continue
+			}
+			// what only one node of a network does between two entries (the leader's expiry sweep,
+			// somebody looking at a status page, a lookup, a snapshot) must not leave a trace in
+			// the replicated state: instance 0 alone performs such reads at seeded entries
+			if (uint64(hp.Seed)+uint64(idx)*40503)%5 == 0 {
+				c01LocalReads(srvs[0], e)
+				rep.Obs("node-local-read-rounds", 1)
 			}
 			var first string
 			var firstR []verifmon.Reply
@@ -131,6 +150,26 @@ func TestVerifC01(t *testing.T) {
 			}
 			h.Write([]byte(first))
 			rep.Case(c01Nontrivial(e, firstR))
+			se := &shiftHist[idx]
+			srs, span := verifApplyCaught(shifted, se)
+			if span != nil {
+				break
+			}
+			if a, b := replyShape(firstR), replyShape(srs); a != b {
+				rep.Violation("C01", "diverge:time-shift:"+e.Cmd+":"+e.Role,
+					fmt.Sprintf("entry %d %.80q: the same history with all timestamps shifted by %v (to the present) yields different replies:\n  then=%.400s\n  now =%.400s", e.Id, e.Data, time.Duration(wallBase-verifgen.T0), a, b),
+					map[string]interface{}{"gen": hpw, "entry_index": idx, "entry": e, "shifted_base_unixnano": wallBase})
+				diverged = true
+				break
+			}
+			rep.Obs("time-shifted-entries", 1)
+		}
+		if !diverged {
+			if a, b := viewShape(srvs[0].VerifView()), viewShape(shifted.VerifView()); a != b {
+				rep.Violation("C01", "diverge:time-shift:state", fmt.Sprintf("final state (times ignored) differs between the history of seed %d and the same history shifted to the present: %s", hp.Seed, firstDiff(a, b)),
+					map[string]interface{}{"gen": hpw, "shifted_base_unixnano": wallBase})
+				diverged = true
+			}
 		}
 		if !diverged {
 			v0 := srvs[0].VerifView().Canon()
@@ -153,6 +192,61 @@ func TestVerifC01(t *testing.T) {
 	// digests are compared across processes (different GOMAXPROCS) by the driver
 	b, _ := json.Marshal(digests)
 	os.WriteFile(filepath.Join(verifrep.Dir(), "digests.json"), b, 0644)
+}
+
+// c01LocalReads performs the read-only operations a single node runs on its own.
+func c01LocalReads(srv *IRCServer, e *verifgen.Entry) {
+	srv.ExpireSessions()
+	srv.GetSessions()
+	srv.NumSessions()
+	srv.Marshal(e.Id)
+	srv.GetSession(robust.Id{Id: e.Session})
+	srv.GetSession(robust.Id{Id: e.Id + 1})
+	srv.LastPostMessage(robust.Id{Id: e.Session})
+	srv.Banned(e.RemoteAddr)
+	srv.SessionLimit()
+	srv.VerifView()
+}
+
+// replyShape is what must be invariant under a shift of all timestamps: the
+// commands / numerics of the replies and their recipients (texts carry times).
+func replyShape(rs []verifmon.Reply) string {
+	var b strings.Builder
+	for _, r := range rs {
+		fmt.Fprintf(&b, "%s%v;", verifmon.ParseLine(r.Data).Command, r.To)
+	}
+	return b.String()
+}
+
+// viewShape is the canonical state without its time fields.
+func viewShape(v *verifview.View) string {
+	for i := range v.Sessions {
+		s := &v.Sessions[i]
+		s.LastActivity, s.LastNonPing, s.LastSolvedCaptcha, s.Created = verifview.Time{}, verifview.Time{}, verifview.Time{}, 0
+		// a captcha token carries the time it was minted at
+		if i := strings.Index(s.Pass, "captcha="); i >= 0 {
+			s.Pass = s.Pass[:i] + "captcha=*"
+		}
+	}
+	for i := range v.Channels {
+		v.Channels[i].TopicTime = verifview.Time{}
+	}
+	for i := range v.Holds {
+		v.Holds[i].Added = verifview.Time{}
+	}
+	return v.Canon()
+}
+
+func firstDiff(a, b string) string {
+	i := 0
+	for i < len(a) && i < len(b) && a[i] == b[i] {
+		i++
+	}
+	lo := i - 80
+	if lo < 0 {
+		lo = 0
+	}
+	return fmt.Sprintf("...%.200q vs ...%.200q", a[lo:], b[lo:])
 }
 
 func min(a, b int) int {
